@@ -3,7 +3,7 @@
 //! for `n` processors under the given region policy and checks what C09 states: exactly `n`
 //! distinct processors of the source set, or nothing.
 //!
-//! usage: selection_replay <policy> <n> <region size>...   (policy: any | prefer_same |
+//! usage: selection_replay <policy> <n> <region size>...   (policy: any | prefer_same | prefer_same_one_region |
 //! require_same | prefer_different | require_different). Exit 0 = as stated, 1 = violated.
 use std::collections::HashSet;
 use std::num::NonZero;
@@ -40,7 +40,7 @@ fn main() -> ExitCode {
         let b = hw.processors().to_builder();
         let b = match policy {
             "any" => b,
-            "prefer_same" => b.prefer_same_memory_region(),
+            "prefer_same" | "prefer_same_one_region" => b.prefer_same_memory_region(),
             "require_same" => b.same_memory_region(),
             "prefer_different" => b.prefer_different_memory_regions(),
             "require_different" => b.different_memory_regions(),
@@ -49,7 +49,7 @@ fn main() -> ExitCode {
         let got = b.take(NonZero::new(n).expect("n > 0"));
         match got {
             None => {
-                if policy == "any" || policy == "prefer_same" || policy == "prefer_different" {
+                if policy == "any" || policy == "prefer_same" || policy == "prefer_same_one_region" || policy == "prefer_different" {
                     if total >= n {
                         worst = Some(format!("returned nothing although {total} >= {n} candidates exist"));
                     }
@@ -59,6 +59,12 @@ fn main() -> ExitCode {
                 let ids: HashSet<u32> = set.processors().iter().map(|p| p.id()).collect();
                 if set.len() != n || ids.len() != n {
                     worst = Some(format!("asked for {n}, got {} processors ({} distinct)", set.len(), ids.len()));
+                }
+                if policy == "prefer_same_one_region" && sizes.iter().any(|s| *s as usize >= n) {
+                    let regions: HashSet<u32> = set.processors().iter().map(|p| p.memory_region_id()).collect();
+                    if regions.len() != 1 {
+                        worst = Some(format!("a single region could hold all {n}, but the set spans {} regions", regions.len()));
+                    }
                 }
             }
         }
